@@ -108,6 +108,24 @@ def oracleC01 (o : OSt) (_op : OpKind) (_log : List String) (cur : World) : Stri
 
 /-! ## C03 (sequences) -/
 def oracleC03seq (o : OSt) (op : OpKind) (_log : List String) (cur : World) : String :=
+  -- at quiescence a restartable Experiment that is Succeeded by the max-trials rule has used its whole (possibly raised) budget
+  let staleVerdict : Option String := match op with
+    | .quiesceEnd k =>
+      (match findExp cur k with
+       | some e =>
+         (match e.maxT with
+          | some m =>
+            let done := ((ownTrials cur k).filter tCompleted).length
+            if isSucceeded e.st.conds && Cond.reasonOf e.st.conds .succeeded == some rMaxTrials &&
+               (e.cfg.resume == .longRunning || e.cfg.resume == .fromVolume) && decide ((done : Int) < m) then
+              some s!"fail succeeded-by-max-trials-although-finished-trials-below-maxTrialCount {k.name} finished={done} max={m}"
+            else none
+          | none => none)
+       | none => none)
+    | _ => none
+  match staleVerdict with
+  | some f => f
+  | none =>
   let bad := cur.exps.filterMap (fun e =>
     if isSucceeded e.st.conds && isFailed e.st.conds then some s!"fail succeeded-and-failed-both-true {e.key.name}"
     else if isCompleted e.st.conds && Cond.has e.st.conds .running then some s!"fail running-true-with-verdict {e.key.name}"
@@ -266,6 +284,8 @@ def oracleC08 (o : OSt) (op : OpKind) (log : List String) (cur : World) : String
 
 /-! ## C09 -/
 def oracleC09 (o : OSt) (op : OpKind) (log : List String) (_cur : World) : String :=
+  if log.any (fun l => (l.splitOn "@endpoint-of-another-namespace").length > 1) then
+    "fail request-sent-to-the-algorithm-service-of-another-namespace" else
   match op with
   | .recSug k live =>
     let reqs := log.filter (fun l => l.startsWith ("rpc.getSuggestions."))
